@@ -73,7 +73,12 @@ PROP = dict(
          "points, weights, partition length); non-trivial = well-formed, at least 3 points and iter_count >= 1",
     class_names={0: "Ok", 1: "error", 2: "panic", 3: "hang"},
     trusted_base=[
-        "axioms: none (every theorem of Properties/C03.v is closed under the global context)",
+        "axioms: none for the tree-structure theorems (C03_rcb_bisect_tree, C03_generic, corollaries, reorder spec, checker soundness, "
+        "generic termination/totality: closed under the global context); C03_search_terminates and C03_rcb_total (binary32 termination "
+        "and totality, via Proofs/F32Flocq.v) use the real-number axioms of Coq's standard library through Flocq 4.1: "
+        "ClassicalDedekindReals.sig_forall_dec, ClassicalDedekindReals.sig_not_dec, "
+        "FunctionalExtensionality.functional_extensionality_dep, Classical_Prop.classic",
+        "Flocq 4.1 (BinarySingleNaN) as the link between Coq's SpecFloat operations and the real numbers",
         "Rib: nalgebra's eigen-decomposition / Householder rotation is not modelled; the rotated points enter as data recorded by the hook",
         "modelled, not verified: i64 overflow of weight sums (contract), AVX-512 reorder_split (feature off), rayon's actual split trees "
         "(the theorems hold for every split tree; the runs use the sequential one)",
@@ -81,7 +86,9 @@ PROP = dict(
     assumptions=[
         "coordinates are finite f64 whose binary32 image is finite (not NaN) ; weights are non-negative i64 (or integer-valued f64) whose sum does not overflow",
         "rayon fold/reduce call the closures on a split tree of the index range; join runs both closures",
-        "C03_search_terminates_partial / C03_rcb_total_partial: termination and totality are proved from a bounded order embedding `rank` of the representable values (closed under the midpoint) into Z -- hypotheses of Section Total, satisfiable and true of binary32 but NOT discharged for SpecFloat; the runs use fuel 2000 and never met OutOfFuel",
+        "C03_rcb_total has the decidable premise box_ok32 (the root box has finite canonical bounds enclosing the binary32 coordinates), "
+        "evaluated on every in-contract case by Run/RunC03.v (a false counts as a correspondence failure); its fuel bound 2^33 is a "
+        "termination bound, not a tight one (the runs use fuel 2000 and never met OutOfFuel)",
         "the C03 theorems require the binary32 image of every coordinate not to be NaN (true of every finite f64; checked per case by the run glue)",
     ],
 )
@@ -90,10 +97,12 @@ MANIFEST = dict(
     text="Theorem rcb_bisect_tree proved for ALL point sets, weights, tolerances, split trees and float behaviours of the cut search "
          "about a line-by-line Gallina model of recursive_bisection.rs (fold/reduce with its tie rules, stop rules, in-place two-pointer "
          "reordering, recursion with heap numbering, boxes, axis rotation, offset normalisation): the ids with the binary32 coordinates "
-         "form a BisectTree; corollaries: one part per point, equal points share a part, ids < 2^iter_count and all written. The model is "
+         "form a BisectTree; corollaries: one part per point, equal points share a part, ids < 2^iter_count and all written; termination of the cut search and totality (no panic, no OutOfFuel) at binary32 from a rank "
+         "embedding (pure) and the closure of finite values under the midpoint (Flocq). The model is "
          "compared with Rcb/Rib on generated inputs (exact ids) and a checker proved sound for BisectTree judges every implementation output.",
     design_ref="DESIGN.md §7 C03",
     note="Trusted: Coq kernel; model<->code tie is the differential run (exact ids, pools 1..16); SpecFloat = hardware binary32; "
-         "Rib's rotation enters as recorded data. No axioms.",
+         "Rib's rotation enters as recorded data. No axioms except the standard real-number axioms "
+         "(through Flocq) under the two binary32 termination/totality theorems.",
     technique="Coq proof (structural induction on iter_count, split lemma for the in-place reordering) + model/implementation correspondence + certified checker",
 )
